@@ -4,6 +4,7 @@ import Driver.C01
 import Driver.C02
 import Driver.C20
 import Driver.C05
+import Driver.Tax
 
 open Driver
 
@@ -12,7 +13,8 @@ def handlers : List (List String → Option String) := [
   Driver.C01.handle,
   Driver.C02.handle,
   Driver.C20.handle,
-  Driver.C05.handle
+  Driver.C05.handle,
+  Driver.Tax.handle
 ]
 
 def dispatch (toks : List String) : String :=
